@@ -17,7 +17,7 @@ CHECK = dict(
                                 'unbuf_two_senders_inside_send': 500, 'unbuf_send_timeout_with_receiver_inside_recv': 100,
                                 'close_with_buffered_items': 3, 'values_received_by_calls_made_after_close': 3,
                                 'send_true_called_on_full_buffer': 1500, 'recv_true_called_on_empty_channel': 5000,
-                                'executions_of_clean_classes': 18, 'script_steps': 5000}),
+                                'executions_of_clean_classes': 16, 'script_steps': 5000}),
                 thorough=dict(evaluations=200, events=600000, distinct=80,
                               cov={'C_CHAN_SEND_WAIT': 50000, 'C_CHAN_RECV_WAIT': 50000, 'send_timeout': 5000, 'recv_timeout': 15000,
                                    'unbuf_two_senders_inside_send': 5000, 'unbuf_send_timeout_with_receiver_inside_recv': 1000,
